@@ -97,7 +97,7 @@ func randInt(f, t int64) (string, error) {
 		t = defaultMaxRandValue
 	}
 	if t == f {
-		f = t + defaultMaxRandValue
+		t = f + defaultMaxRandValue
 	}
 	n := rand.Int63n(t - f)
 	n += f
